@@ -77,10 +77,6 @@ def predicate(layer, cfg, stage, exc, msg):
     return "dominance_without_monotonicities"
   if layer in ("LinearConstraints", "Linear") and exc == "IndexError":
     return "input_bounds_shorter_than_monotonicities"
-  if layer == "Linear" and (exc == "InvalidArgumentError" or (exc == "ValueError" and stage == "project")):
-    n = cfg.get("num_input_dims")
-    if any(b is not None and len(b) != n for b in (cfg.get("input_min"), cfg.get("input_max"))):
-      return "input_bounds_length_mismatch"
   if layer == "Lattice" and exc == "TypeError" and isinstance(cfg.get("lattice_sizes"), tuple) and \
       cfg.get("interpolation") == "simplex" and "concatenate" in m:
     return "tuple_lattice_sizes_simplex"
@@ -89,14 +85,11 @@ def predicate(layer, cfg, stage, exc, msg):
     if lo and hi and any(a is not None and b is not None and a == b for a, b in zip(lo, hi)):
       return "zero_input_range"
   if exc == "TypeError" and "not all arguments converted during string formatting" in m:
-    # still open: the message of the repeated-dimension check of a joint unimodality (lattice_lib)
-    return "joint_unimodality_message_formatting" if cfg.get("joint_unimodalities") else "error_message_formatting"
+    return "error_message_formatting"
   if layer == "PWLCalibration" and cfg.get("is_cyclic") and cfg.get("kernel_initializer") == "equal_slopes" and exc == "TypeError":
     return "cyclic_equal_slopes"
   if layer == "PWLCalibration" and "Clamping is not implemented" in m:
     return "clamp_without_monotonicity"
-  if layer == "Lattice" and exc == "IndexError" and stage == "ctor" and "assignment index" in m:
-    return "joint_unimodality_dim_out_of_range"
   if cfg.get("dtype") == "float64" and ("float" in m or "double" in m or "dtype" in m.lower()) and \
       exc in ("InvalidArgumentError", "TypeError", "ValueError"):
     return "dtype_float64"
@@ -105,14 +98,10 @@ def predicate(layer, cfg, stage, exc, msg):
     return "output_bounds_unverified"
   if layer == "CDF" and stage == "nonfinite" and (cfg.get("num_keypoints") or 0) < 1:
     return "cdf_zero_keypoints"
-  if layer == "CategoricalCalibration" and "ircular" in m:
-    return "cyclic_pairs"
   if layer == "Lattice" and exc == "IndexError" and cfg.get("kernel_regularizer") and stage in ("regularizer", "build", "eval"):
     return "regularizer_amounts_too_short"
   if layer in ("TorsionRegularizer", "LaplacianRegularizer") and exc == "IndexError":
     return "regularizer_amounts_too_short"
-  if layer in ("CategoricalCalibration", "CategoricalCalibrationConstraints") and stage == "project" and exc == "ValueError":
-    return "cyclic_pairs"
   return "other:" + " ".join(m.split()[:6])
 
 
@@ -298,7 +287,8 @@ L_TRUSTS = [None, None, [(0, 1, 1)], (0, 1, "positive"), [(0, 1, -1)], [(0, 1, "
             [(0, 1, 1), (1, 0, 1)], [(0, 0, 1)], [(0, 1, 2)], [(0, 1, 1), (0, 1, 1)], [(0, 1, 1), (0, 2, -1)], [(0, 5, 1)]]
 L_DOMS = [None, None, [(0, 1)], (0, 1), [(1, 0)], [(0, 1), (1, 0)], [(0, 5)], [[0, 1]]]
 L_JM = [None, None, [(0, 1)], (0, 1), [(0, 9)]]
-L_JU = [None, None, None, ([0, 1], "valley"), [([0], "peak")], [([0, 1], "peak")], [([0, 0], "peak")], [([0], "up")]]
+L_JU = [None, None, None, ([0, 1], "valley"), [([0], "peak")], [([0, 1], "peak")], [([0, 0], "peak")], [([0], "up")],
+        [([7], "peak")], [([1, 2], "valley")], [([0], "valley"), ([1, 0, 1], "peak")], ([0, 9], "peak")]
 L_BOUNDS = [(None, None), (None, None), (0.0, 1.0), (-1.0, 2.0), (1.0, 0.0), (0.0, 0.0), (None, 1.0), (0.0, None), (0, 1)]
 L_REGS = [None, None, ("torsion", 0.1, 0.2), [("laplacian", 0.1, 0.0)], [("torsion", "dim", 0.0)], [("laplacian", "dimt", 0.1)],
           [("torsion", "short", 0.0)], [("laplacian", "short", 0.0)], [("torsion", "long", 0.0)], ("unknown", 0.1, 0.1)]
@@ -378,7 +368,8 @@ def gen_pwl(rng):
 def gen_linear(rng):
   n = rng.choice([1, 2, 3, 3])
   def bounds(v):
-    return rng.choice([None, None, [v] * n, [v] + [None] * (n - 1), [v] + ["none"] * (n - 1), [int(v)] * n, [0.5] * n, tuple([v] * n)])
+    return rng.choice([None, None, [v] * n, [v] + [None] * (n - 1), [v] + ["none"] * (n - 1), [int(v)] * n, [0.5] * n, tuple([v] * n),
+                       [v] * (n + 1), [v] * (n - 1), [1.0 - v] * n])
   return dict(num_input_dims=n, units=rng.choice([1, 1, 2]),
               monotonicities=rng.choice([None, 1, "increasing", "decreasing", [1] * n, [1, 0, -1][:n], [-1] * n, [1] * (n + 1),
                                          tuple([1] * n), "peak"]),
@@ -392,7 +383,8 @@ def gen_categorical(rng):
   b = rng.choice(L_BOUNDS)
   return dict(num_buckets=rng.choice([1, 2, 3, 4]), units=rng.choice([1, 1, 2]), output_min=b[0], output_max=b[1],
               monotonicities=rng.choice([None, None, [(0, 1)], [[0, 1]], [(0, 1), (1, 2)], [(0, 1), (1, 0)],
-                                         [(0, 1), (1, 2), (2, 1)], [(0, 1), (2, 3), (3, 2)], [(0, 0)], [(0, 7)], (0, 1), [(0, 1, 2)]]),
+                                         [(0, 1), (1, 2), (2, 1)], [(0, 1), (2, 3), (3, 2)], [(0, 0)], [(0, 7)], (0, 1), [(0, 1, 2)],
+                                         [(0, 1), (0, 2), (1, 3), (2, 3)], [(0, 1), (1, 2), (2, 0)], [(0, 1), (1, 1)], [(2, 1), (1, 0)]]),
               kernel_initializer=rng.choice(["uniform", "constant", "zeros"]), default_input_value=rng.choice([None, -1]),
               split_outputs=rng.choice([False, False, True]), dtype=rng.choice(["float32", "float32", "float64"]))
 
@@ -477,7 +469,8 @@ def _valid_cat(rng):
   nb = rng.choice([2, 3, 4])
   b = rng.choice([(None, None), (0.0, 1.0), (-1.0, 2.0), (None, 1.0), (0.0, None), (0.0, 0.0)])
   pairs = rng.choice([None, [(0, 1)], [[0, 1]], [(0, 1), (1, 2)], [(0, 1), (0, 1)], [(0, 1), (1, 2), (2, 1)], [(0, 1), (2, 3), (3, 2)],
-                      [(1, 0)], [(0, 1), (1, 0)]])
+                      [(1, 0)], [(0, 1), (1, 0)], [(0, 1), (0, 2), (1, 3), (2, 3)], [(2, 3), (1, 2), (0, 1)], [(0, 2), (1, 2), (0, 1)],
+                      [(3, 2), (2, 1), (1, 0)], [(1, 1)], [(0, 1), (1, 2), (2, 3), (3, 1)]])
   if pairs and max(max(p) for p in pairs) >= nb:
     pairs = [(0, 1)]
   return dict(num_buckets=nb, units=rng.choice([1, 2]), output_min=b[0], output_max=b[1], monotonicities=pairs,
@@ -828,7 +821,12 @@ def run_must_reject(ctx):
   build: lattice size < 2, a dimension both monotone and unimodal, trust on a non-monotone main
   feature, a feature used as main and conditional (also within ONE trust), dominance between
   non-monotone features, output_min > output_max, unsorted keypoints, cyclic together with
-  monotonicity. Acceptance (or another exception class) is an oracle failure."""
+  monotonicity, circular categorical monotonicity pairs (cycle detection in the categorical partial
+  order is an anchored mechanism of the property: a 2-cycle, a self pair, a k-cycle in any rotation, a
+  cycle behind a root or in front of a tail, with repeated pairs), and the configurations whose late
+  failure was repaired by f7753e0 / f995047 / 4a8f232: a joint unimodality with a dimension outside the
+  lattice or with repeated dimensions, Linear input bounds of the wrong length or crossed on a layer
+  without any constraint. Acceptance (or another exception class) is an oracle failure."""
   import tensorflow_lattice as tfl
   from tensorflow_lattice.python import lattice_layer, pwl_calibration_layer, linear_layer
   from tensorflow_lattice.python import categorical_calibration_layer as ccl
@@ -877,19 +875,66 @@ def run_must_reject(ctx):
           ("PWLCalibration", "min>max", dict(input_keypoints=list(kps), output_min=2.0, output_max=1.0)),
       ]
     n = rng.randint(2, 4)
+    short = rng.choice([n - 1, n + 1, n + 2])
     cases += [
         ("Linear", "dominance-free-feature", dict(num_input_dims=n, monotonicities=[0] * n, monotonic_dominances=[(0, 1)])),
         ("CategoricalCalibration", "min>max", dict(num_buckets=3, output_min=1.0, output_max=0.0)),
+        ("Linear", "unconstrained-bounds-wrong-length",
+         dict(num_input_dims=n, **{rng.choice(["input_min", "input_max"]): [0.5] * short})),
+        ("Linear", "unconstrained-bounds-crossed", dict(num_input_dims=n, input_min=[1.0] * n, input_max=[1.0] * (n - 1) + [0.0])),
+    ]
+    # circular categorical monotonicity pairs
+    nb = rng.randint(2, 6)
+    k = rng.randint(1, nb)                       # cycle length (1 = a self pair)
+    verts = rng.sample(range(nb), k)
+    cyc = [(verts[i], verts[(i + 1) % k]) for i in range(k)]
+    rest = [v for v in range(nb) if v not in verts]
+    extra = []
+    for v in rest:                               # roots in front of the cycle / tails behind it / unrelated chains
+      kind = rng.randrange(3)
+      if kind == 0:
+        extra.append((v, rng.choice(verts)))
+      elif kind == 1:
+        extra.append((rng.choice(verts), v))
+    pairs = cyc + extra
+    if rng.random() < 0.3:
+      pairs = pairs + [rng.choice(pairs)]        # a repeated pair
+    rng.shuffle(pairs)
+    if rng.random() < 0.3:
+      pairs = [list(p) for p in pairs]
+    bounds = rng.choice([{}, dict(output_min=0.0, output_max=1.0), dict(output_min=-1.0)])
+    cases += [
+        ("CategoricalCalibration", "circular-pairs", dict(num_buckets=nb, monotonicities=pairs, **bounds)),
+        ("CategoricalCalibrationConstraints", "circular-pairs", dict(monotonicities=list(pairs), **bounds)),
+        ("CategoricalCalibration", "circular-pairs-behind-root", dict(num_buckets=4, monotonicities=[(0, 1), (1, 2), (2, 1)])),
+        ("CategoricalCalibration", "self-pair", dict(num_buckets=nb, monotonicities=[(0, 1)] * rng.randint(0, 1) + [(nb - 1, nb - 1)])),
+    ]
+    # joint unimodalities whose late failure was repaired
+    ju_rank = rng.randint(1, 3)
+    ju_sizes = [3] * ju_rank
+    bad_dim = rng.choice([ju_rank, ju_rank + 5, -1])
+    good = [([d], "peak") for d in range(ju_rank - 1)]
+    rep = rng.randrange(ju_rank)
+    cases += [
+        ("Lattice", "joint-unimodality-dim-out-of-range",
+         dict(lattice_sizes=ju_sizes, joint_unimodalities=good + [([bad_dim], rng.choice(["peak", "valley"]))],
+              kernel_initializer=rng.choice(["random_uniform_or_linear_initializer", "linear_initializer", "zeros"]))),
+        ("LatticeConstraints", "joint-unimodality-dim-out-of-range",
+         dict(lattice_sizes=ju_sizes, joint_unimodalities=[([bad_dim], "valley")])),
+        ("Lattice", "joint-unimodality-repeated-dims", dict(lattice_sizes=ju_sizes, joint_unimodalities=[([rep, rep], "peak")])),
+        ("LatticeConstraints", "joint-unimodality-repeated-dims",
+         dict(lattice_sizes=ju_sizes, joint_unimodalities=good + [(list(range(ju_rank)) + [rep], "valley")])),
     ]
   ctors = {"Lattice": lattice_layer.Lattice, "LatticeConstraints": lattice_layer.LatticeConstraints,
            "PWLCalibration": pwl_calibration_layer.PWLCalibration, "Linear": linear_layer.Linear,
-           "CategoricalCalibration": ccl.CategoricalCalibration}
+           "CategoricalCalibration": ccl.CategoricalCalibration,
+           "CategoricalCalibrationConstraints": ccl.CategoricalCalibrationConstraints}
   for layer, what, cfg in cases:
     ctx.count("must_reject:" + what)
     outcome, msg = "accepted", ""
     try:
       obj = ctors[layer](**cfg)
-      if hasattr(obj, "build") and layer != "LatticeConstraints":
+      if hasattr(obj, "build") and layer not in ("LatticeConstraints", "CategoricalCalibrationConstraints"):
         if layer == "Lattice":
           obj.build((None, len(cfg["lattice_sizes"])))
         elif layer == "Linear":
